@@ -64,7 +64,9 @@ def rust_ty(t):
         return ".ptr (%s)" % rust_ty(m.group(2))
     t = t.replace("libc::", "").replace("std::os::raw::", "")
     table = {"c_char": ".char", "bool": ".bool", "usize": ".usize", "i32": ".i32", "i64": ".i64", "u8": ".u8",
-             "c_int": ".int", "c_void": ".void"}
+             "c_int": ".int", "c_void": ".void",
+             "i8": ".i8", "i16": ".i16", "u16": ".u16", "u32": ".u32", "u64": ".u64", "isize": ".isize", "c_uint": ".u32",
+             "c_long": ".i64", "c_ulong": ".u64"}
     if t in table:
         return table[t]
     if re.match(r"^[A-Z]\w*$", t):
@@ -109,7 +111,9 @@ def c_ty(t):
     stars = t.count("*")
     base = t.replace("*", "").strip()
     table = {"char": ".char", "bool": ".bool", "uintptr_t": ".usize", "int32_t": ".i32", "int64_t": ".i64",
-             "uint8_t": ".u8", "int": ".int", "void": ".void"}
+             "uint8_t": ".u8", "int": ".int", "void": ".void",
+             "int8_t": ".i8", "int16_t": ".i16", "uint16_t": ".u16", "uint32_t": ".u32", "uint64_t": ".u64", "intptr_t": ".isize",
+             "unsigned int": ".u32", "long": ".i64", "unsigned long": ".u64"}
     if base in table:
         r = table[base]
     elif re.match(r"^[A-Z]\w*$", base):
@@ -157,7 +161,9 @@ def dart_ty(t):
     if m:
         return ".ptr (%s)" % dart_ty(m.group(1))
     table = {"ffi.Char": ".char", "ffi.Bool": ".bool", "ffi.UintPtr": ".usize", "ffi.Int32": ".i32", "ffi.Int64": ".i64",
-             "ffi.Uint8": ".u8", "ffi.Int": ".int", "ffi.Void": ".void"}
+             "ffi.Uint8": ".u8", "ffi.Int": ".int", "ffi.Void": ".void",
+             "ffi.Int8": ".i8", "ffi.Int16": ".i16", "ffi.Uint16": ".u16", "ffi.Uint32": ".u32", "ffi.Uint64": ".u64", "ffi.IntPtr": ".isize",
+             "ffi.UnsignedInt": ".u32", "ffi.Long": ".i64", "ffi.UnsignedLong": ".u64"}
     if t in table:
         return table[t]
     if re.match(r"^[A-Z]\w*$", t):
